@@ -10,6 +10,10 @@ def lam(a, x): return ('lam', a, x)
 def k(a, b): return ('k', a, b)
 def j(a, b): return ('j', a, b)
 def u(x): return ('u', x)
+def t3(a, b, c): return ('t3', a, b, c)
+def s3(a, b, c): return ('s3', a, b, c)
+def m3(a, b, c): return ('m3', a, b, c)
+def w(a, b, c, d): return ('w', a, b, c, d)
 def add(t): return ('add', t)
 def union(s, t): return ('union', s, t)
 def readd(t): return ('readd', t)
@@ -44,6 +48,11 @@ QUICK = [
     T('B6', 'Lb', 3, [add(u(k(0, 1))), add(k(0, 2)), union(k(0, 1), k(0, 2)), add(u(k(0, 2))), add(u(k(2, 1)))], note='child loses a slot: parent invocation shrinks, congruent parents merge'),
     T('B7', 'Lb', 2, [add(app(var(0), var(1))), add(var(0)), union(app(var(0), var(1)), var(0)), add(app(app(var(0), var(1)), var(1)))],
       note='equation whose right side mentions its own left side: x = app(x, b)'),
+    T('B8', 'Lb', 3, [add(t3(0, 1, 2)), add(t3(0, 2, 1)), union(t3(0, 1, 2), t3(0, 2, 1)), add(app(t3(0, 1, 2), var(1))), add(app(t3(0, 2, 1), var(2))), add(app(t3(0, 2, 1), var(1)))],
+      distinct=[[0, 1, 2]], note='child class with a swap symmetry, parent reuses one of the swapped slots elsewhere: the parent must NOT inherit the symmetry'),
+    T('B9', 'Lb', 3, [add(app(t3(0, 1, 2), var(1))), add(app(s3(0, 2, 1), var(1))), add(m3(0, 1, 2)), union(m3(0, 1, 2), app(t3(0, 1, 2), var(1))), add(t3(0, 2, 1)), union(t3(0, 1, 2), t3(0, 2, 1)),
+                      add(s3(0, 1, 2)), union(t3(0, 1, 2), s3(0, 1, 2)), add(app(t3(0, 1, 2), var(2)))],
+      distinct=[[0, 1, 2]], note='two parents congruent only modulo a child symmetry that is learned later (4-step history)'),
 ]
 
 
